@@ -147,23 +147,27 @@ def resToks (s : Stmt) : Res → List Tok
   | .val v => valToks v
   | .int v => [.num v]
 
-def mkHeap (zs : List Int) (qs : List (Int × Int)) : Heap := fun l =>
-  match l with
+def mkHeapFn (zs : List Int) (qs : List (Int × Int)) : ZLoc → Int
   | .v i => zs.getD i 0
   | .num i => (qs.getD i (0, 1)).1
   | .den i => (qs.getD i (0, 1)).2
+def mkHeap (zs : List Int) (qs : List (Int × Int)) : Heap := ⟨mkHeapFn zs qs⟩
 
 /-- run the model of the expression-template strategy (both answers of `__builtin_constant_p`) on an
     mpz statement and compare the target with the temporaries semantics -/
 def strategyOk (h : Heap) (s : Stmt) : Bool :=
-  let chk (i : Nat) (e : E) : Bool :=
-    if e.ty = .z then
-      [false, true].all fun c =>
-        match evalZ c 4 (.v i) e h, evalTmp h.abs e with
-        | some h', some (.z v) => h' (.v i) == v && [0, 1, 2, 3].all fun j => j == i || h' (.v j) == h (.v j)
-        | none, none => true
-        | _, _ => false
-    else true
+  let chk (t : Ty) (i : Nat) (e : E) : Bool :=
+    [false, true].all fun c =>
+      match execAssign c 4 t i e h, evalTmp h.abs e with
+      | some h', some v =>
+        (match t, conv t v with
+         | .z, .z x => h' (.v i) == x
+         | .q, .q r => h' (.num i) == r.num && h' (.den i) == Int.ofNat r.den
+         | _, _ => false) &&
+        ([0, 1, 2, 3].all fun j => (t == .z && j == i) || h' (.v j) == h (.v j)) &&
+        ([0, 1, 2].all fun j => (t == .q && j == i) || (h' (.num j) == h (.num j) && h' (.den j) == h (.den j)))
+      | none, none => true
+      | _, _ => false
   let zOpnd : Opnd → Bool
     | .ex e => e.ty = .z
     | .bi _ => true
@@ -176,9 +180,9 @@ def strategyOk (h : Heap) (s : Stmt) : Bool :=
         | none, none => true
         | _, _ => false
     else true
-  | .assign .z i e => chk i e
-  | .compound o .z i r => chk i (expand o .z i r)
-  | .compoundSh o .z i n => chk i (.sh o (.zv i) n)
+  | .assign t i e => chk t i e
+  | .compound o t i r => chk t i (expand o t i r)
+  | .compoundSh o t i n => chk t i (.sh o (match t with | .z => .zv i | .q => .qv i) n)
   | _ => true
 
 def handle : Handler
